@@ -480,11 +480,22 @@ func run(c *vf.Ctx) {
 		gh.Branches["master"] = len(gh.Commits) - 1
 		dir := c.TempDir(fmt.Sprintf("repo%d", bi))
 		defer os.RemoveAll(dir)
-		c.Must(g.Init(dir, true, "sha1"), "git init")
-		ids, err := g.Import(dir, gh)
-		c.Must(err, "fast-import")
+		if err := g.Init(dir, true, "sha1"); err != nil {
+			c.Broken("git init: %v", err)
+			return
+		}
+		gi := gitx.New(c.TempDir("githome"))
+		gi.Env = g.Env
+		ids, err := gi.Import(dir, gh)
+		if err != nil {
+			c.Broken("fast-import: %v", err)
+			return
+		}
 		repo, err := git.PlainOpen(dir)
-		c.Must(err, "PlainOpen")
+		if err != nil {
+			c.Broken("PlainOpen: %v", err)
+			return
+		}
 		for k, it := range items {
 			h := it.h
 			idOf := func(i int) string { return ids[it.base+i] }
@@ -604,7 +615,7 @@ func checkOne(c *vf.Ctx, g *gitx.Git, repo *git.Repository, dir string, h *hist,
 		return
 	}
 	wrong, inv := 0, 0
-	var first string
+	var first, firstInv string
 	for i, ln := range br.Lines {
 		c.Count("lines_compared", 1)
 		if ln.Text != want[i].Text {
@@ -629,8 +640,8 @@ func checkOne(c *vf.Ctx, g *gitx.Git, repo *git.Repository, dir string, h *hist,
 		}
 		if !has {
 			inv++
-			if first == "" {
-				first = fmt.Sprintf("line %d %q attributed to c%d whose version of the file does not contain it", i+1, ln.Text, gi)
+			if firstInv == "" {
+				firstInv = fmt.Sprintf("line %d %q attributed to c%d whose version of the file does not contain it", i+1, ln.Text, gi)
 			}
 		}
 		if ln.Hash.String() != want[i].Hash {
@@ -655,7 +666,7 @@ func checkOne(c *vf.Ctx, g *gitx.Git, repo *git.Repository, dir string, h *hist,
 		}
 	}
 	if inv > 0 {
-		fail(pre+":attributed-commit-lacks-line", fmt.Sprintf("%d lines; first: %s", inv, first), replay())
+		fail(pre+":attributed-commit-lacks-line", fmt.Sprintf("%d lines; first: %s", inv, firstInv), replay())
 		return
 	}
 	if wrong > 0 && h.tier == "A" {
